@@ -79,17 +79,24 @@ fn eval(ctx: &NetCtx, text: &str, ext: bool) -> Got {
     }
 }
 
-pub fn check(ctx: &NetCtx, f: &F, rich: bool) -> (u64, Vec<String>) {
+pub fn check(ctx: &NetCtx, f: &F, rich: bool) -> (u64, u64, Vec<String>) {
     let ext = f.uses_wild_or_dom();
     let canon = f.show(&ctx.user);
     let base = eval(ctx, &canon, ext);
     let mut bad = vec![];
     let base_set = match &base {
         Got::Set(s) => s.clone(),
-        other => return (1, vec![format!("canonical text {canon} does not evaluate: {other:?}")]),
+        other => return (1, 0, vec![format!("canonical text {canon} does not evaluate: {other:?}")]),
     };
     let rw = rewrites(f, ctx, rich);
+    let mut seen = std::collections::HashSet::new();
+    seen.insert(canon.clone());
+    let mut distinct = 0u64;
     for (desc, text) in &rw {
+        if !seen.insert(text.clone()) {
+            continue;
+        }
+        distinct += 1;
         match eval(ctx, text, ext) {
             Got::Set(s) if s == base_set => {}
             Got::Set(_) => bad.push(format!("{desc}: {text:?} gives a different set than {canon}")),
@@ -100,7 +107,7 @@ pub fn check(ctx: &NetCtx, f: &F, rich: bool) -> (u64, Vec<String>) {
             break;
         }
     }
-    (rw.len() as u64 + 1, bad)
+    (distinct + 1, distinct, bad)
 }
 
 pub fn replay(case: &Value) -> Option<String> {
@@ -110,7 +117,7 @@ pub fn replay(case: &Value) -> Option<String> {
     let dom = serde_json::from_value(case["labels"]["dom"].clone()).ok()?;
     let ctx = NetCtx::new(b, Labels { wild, dom, props: vec![] }, "replay");
     let f: F = serde_json::from_value(case["formula"].clone()).ok()?;
-    let (_, bad) = check(&ctx, &f, true);
+    let (_, _, bad) = check(&ctx, &f, true);
     if bad.is_empty() {
         None
     } else {
@@ -123,6 +130,7 @@ pub fn run(tier: &str) -> Result<Report, String> {
     let nets = core_nets(3)?;
     let (m, which, rich, pool): (usize, Vec<&str>, bool, usize) = if tier == "quick" { (3, vec!["con2", "asy2", "imp3"], false, 2) } else { (4, vec!["con2", "asy2", "imp3", "unc2"], true, 4) };
     let mut total_rewrites = 0u64;
+    let mut distinct_rewrites = 0u64;
     for b in nets.iter().filter(|b| which.contains(&b.name.as_str())) {
         let fams = crate::sweep::label_families(b, 1);
         let ctx = NetCtx::new(b.clone(), fams[0].1.clone(), &fams[0].0);
@@ -131,10 +139,10 @@ pub fn run(tier: &str) -> Result<Report, String> {
         fs.extend(templates(&ctx.user, true, pool));
         let mut ge = Gen::new(Alphabet::extended(1, 2, 1, 1));
         fs.extend(ge.closed_up_to(3).into_iter().filter(|f| f.uses_wild_or_dom()));
-        let res: Vec<(u64, Option<Violation>)> = fs
+        let res: Vec<(u64, u64, Option<Violation>)> = fs
             .par_iter()
             .map(|f| {
-                let (n, bad) = check(&ctx, f, rich);
+                let (n, d, bad) = check(&ctx, f, rich);
                 let v = if bad.is_empty() {
                     None
                 } else {
@@ -144,11 +152,12 @@ pub fn run(tier: &str) -> Result<Report, String> {
                         size: f.size(),
                     })
                 };
-                (n, v)
+                (n, d, v)
             })
             .collect();
-        for (n, v) in res {
+        for (n, d, v) in res {
             total_rewrites += n;
+            distinct_rewrites += d;
             if let Some(v) = v {
                 rep.add_count("failing_formulae", 1);
                 if rep.violations.len() < 100 {
@@ -164,8 +173,8 @@ pub fn run(tier: &str) -> Result<Report, String> {
         }
     }
     rep.evaluations = total_rewrites;
-    rep.distinct_nontrivial = total_rewrites;
-    rep.rule = format!("for every closed plain formula with <= {m} nodes, every template formula and every extended formula with <= 3 nodes, on {which:?}: all scope-respecting assignments of the names {POOL:?} to its binders (consistent renaming incl. permutations of the internal names x, xx, xxx), whitespace patterns (none where legal, double, tab, newline, NBSP, mixed; everywhere and at each single token boundary), 1-2 redundant parentheses around each sub-formula and around all, long spellings of each/all hybrid operators, constant spellings; the rewritten text must evaluate (model_check_formula / model_check_extended_formula_dirty) to the same set as the canonical text. distinct_nontrivial counts the rewritten texts evaluated (all distinct from the canonical text by construction of the rewrite families)");
+    rep.distinct_nontrivial = distinct_rewrites;
+    rep.rule = format!("for every closed plain formula with <= {m} nodes, every template formula and every extended formula with <= 3 nodes, on {which:?}: all scope-respecting assignments of the names {POOL:?} to its binders (consistent renaming incl. permutations of the internal names x, xx, xxx), whitespace patterns (none where legal, double, tab, newline, NBSP, mixed; everywhere and at each single token boundary), 1-2 redundant parentheses around each sub-formula and around all, long spellings of each/all hybrid operators, constant spellings; the rewritten text must evaluate (model_check_formula / model_check_extended_formula_dirty) to the same set as the canonical text. distinct_nontrivial = number of rewritten texts that differ from the canonical text and from each other (per formula and network), counted with a hash set; evaluations additionally counts the canonical text");
     rep.assumptions.push("the rewrite generator only produces meaning-preserving variants by construction (consistent renaming respecting scopes, whitespace only between tokens, balanced extra parentheses)".into());
     Ok(rep)
 }
